@@ -539,6 +539,76 @@ pub proof fn lemma_mul_pos_zero(a: real, n: real)
     assert(a >= 0real ==> a * n >= 0real) by(nonlinear_arith) requires n > 0real;
 }
 
+// ---------- index-weighted sums (CenterOfGravity, CorrelationTrendIndicator) ----------
+// sum_{i<|w|} (n - i) * w[i]
+pub open spec fn wsum_k(w: Seq<T>, n: int) -> real decreases w.len() {
+    if w.len() == 0 { 0real } else { wsum_k(w.drop_last(), n) + ((n - (w.len() - 1)) as real) * w.last().v() }
+}
+// sum_{i<|w|} i * w[i]
+pub open spec fn ixsum(w: Seq<T>) -> real decreases w.len() {
+    if w.len() == 0 { 0real } else { ixsum(w.drop_last()) + w.last().v() * ((w.len() - 1) as real) }
+}
+pub open spec fn isum(k: nat) -> real decreases k { if k == 0 { 0real } else { isum((k - 1) as nat) + ((k - 1) as real) } }
+pub open spec fn isq(k: nat) -> real decreases k { if k == 0 { 0real } else { isq((k - 1) as nat) + ((k - 1) as real) * ((k - 1) as real) } }
+pub proof fn lemma_take_step(w: Seq<T>, i: int)
+    requires 0 <= i < w.len()
+    ensures w.take(i + 1).drop_last() =~= w.take(i), w.take(i + 1).last() == w[i], w.take(i + 1).len() == i + 1, w.take(w.len() as int) =~= w
+{}
+
+pub proof fn lemma_sqrt_pos(x: real) requires x > 0real ensures r_sqrt(x) > 0real
+{
+    ax_sqrt(x);
+    let r = r_sqrt(x);
+    assert(r != 0real) by(nonlinear_arith) requires r * r == x, x > 0real;
+}
+
+// ---------- Kendall pair sums (NoiseEliminationTechnology) ----------
+// xs[c] (c >= 1) is the value c-1 steps back from the newest (xs[1] newest); xs[0] is unused
+pub open spec fn sgn3(d: real) -> real { if d > 0real { 1real } else if d < 0real { -1real } else { 0real } }
+pub open spec fn xs_of(w: Seq<T>) -> Seq<T> { Seq::new(w.len() + 1, |c: int| if c == 0 { mk(0real) } else { w[w.len() - c] }) }
+// sum_{k=1}^{m-1} sgn(xs[k] - xs[c])     (newer minus older, for c > k)
+pub open spec fn kendall_inner(xs: Seq<T>, c: int, m: int) -> real decreases m {
+    if m <= 1 { 0real } else { kendall_inner(xs, c, m - 1) + sgn3(xs[m - 1].v() - xs[c].v()) }
+}
+// sum_{c=2}^{m-1} sum_{k=1}^{c-1} sgn(xs[k] - xs[c])
+pub open spec fn kendall_outer(xs: Seq<T>, m: int) -> real decreases m {
+    if m <= 2 { 0real } else { kendall_outer(xs, m - 1) + kendall_inner(xs, m - 1, m - 1) }
+}
+
+pub broadcast proof fn lemma_powi2_nonneg(x: real) ensures #[trigger] r_powi(x, 2) >= 0real
+{ ax_powi2(x); lemma_sq_nonneg(x); }
+// rdiv(a, n) <= a / 3 for n >= 3, a > 0  (used for the trigonometric arguments theta/N)
+pub proof fn lemma_rdiv_le_third(a: real, n: real)
+    requires a > 0real, n >= 3real
+    ensures 0real < rdiv(a, n) && rdiv(a, n) * 3real <= a
+{
+    lemma_rdiv_mul(a, n); lemma_rdiv_sign(a, n);
+    assert(rdiv(a, n) * 3real <= a) by(nonlinear_arith) requires rdiv(a, n) * n == a, n >= 3real, rdiv(a, n) > 0real;
+}
+// cos(4.4422 / N) != 0 for every window length N >= 1 (first quadrant for N >= 3, second/third for N = 1, 2)
+pub proof fn lemma_cos_theta_nonzero(theta: real, n: nat)
+    requires theta == 44422real / 10000real, n >= 1
+    ensures r_cos(rdiv(theta, n as real)) != 0real, n >= 3 ==> r_cos(rdiv(theta, n as real)) > 0real && r_sin(rdiv(theta, n as real)) > 0real
+{
+    ax_pi();
+    let x = rdiv(theta, n as real);
+    if n >= 3 {
+        lemma_rdiv_le_third(theta, n as real);
+        ax_cos_sin_q1(x);
+    } else if n == 2 {
+        lemma_rdiv_mul(theta, 2real);
+        ax_cos_q23(x);
+    } else {
+        lemma_rdiv_mul(theta, 1real);
+        ax_cos_q23(x);
+    }
+}
+
+pub proof fn lemma_roofing_alpha(c: real, s: real)
+    requires c > 0real, s > 0real, c * c + s * s == 1real
+    ensures 0real < rdiv(c + s - 1real, c) < 2real
+{ lemma_rdiv_mul(c + s - 1real, c); lemma_roofing_alpha_core(c, s, rdiv(c + s - 1real, c)); }
+
 // ---------- division ----------
 pub broadcast proof fn lemma_rdiv_mul(a: real, b: real)
     requires b != 0real
@@ -583,4 +653,4 @@ pub proof fn lemma_rdiv_sign2(a: real, b: real)
     assert(a <= 2real * b ==> q <= 2real) by(nonlinear_arith) requires q * b == a, b > 0real;
     assert(a >= 0real ==> q >= 0real) by(nonlinear_arith) requires q * b == a, b > 0real;
 }
-pub broadcast group group_lem { lemma_gains_q_evict, lemma_losses_q_evict, lemma_gains_evict, lemma_losses_evict, lemma_gl_push, lemma_glq_push, lemma_gl_nonneg, lemma_glq_nonneg, lemma_dot_push, lemma_dot_drop_first, lemma_dot_subrange1, lemma_all_pos_sum, lemma_all_pos_push, lemma_nonneg_count_front, lemma_nonneg_count_le, lemma_rdiv_mul, lemma_rdiv_sign, lemma_sumsq_push, lemma_sumsq_drop_first, lemma_sumsq_subrange1, lemma_is_min_of, lemma_is_max_of, lemma_smin_push, lemma_smax_push, lemma_smin_drop_first, lemma_smax_drop_first, lemma_smin_subrange1, lemma_smax_subrange1, lemma_smin_le_first, lemma_smax_ge_first, lemma_sum_push, lemma_sum_drop_first, lemma_sum_subrange1, lemma_sum_empty }
+pub broadcast group group_lem { lemma_powi2_nonneg, lemma_gains_q_evict, lemma_losses_q_evict, lemma_gains_evict, lemma_losses_evict, lemma_gl_push, lemma_glq_push, lemma_gl_nonneg, lemma_glq_nonneg, lemma_dot_push, lemma_dot_drop_first, lemma_dot_subrange1, lemma_all_pos_sum, lemma_all_pos_push, lemma_nonneg_count_front, lemma_nonneg_count_le, lemma_rdiv_mul, lemma_rdiv_sign, lemma_sumsq_push, lemma_sumsq_drop_first, lemma_sumsq_subrange1, lemma_is_min_of, lemma_is_max_of, lemma_smin_push, lemma_smax_push, lemma_smin_drop_first, lemma_smax_drop_first, lemma_smin_subrange1, lemma_smax_subrange1, lemma_smin_le_first, lemma_smax_ge_first, lemma_sum_push, lemma_sum_drop_first, lemma_sum_subrange1, lemma_sum_empty }
